@@ -4,7 +4,13 @@ Case grammar (see harness/C05.cpp, ocaml/C05_driver.ml); a matrix is a table `ro
   det A | invertible A (prints flag, and the determinant when square) | inverse A
   det_swap A i j  -> det(A), det(A with rows i,j exchanged)
   det_laws A B    -> det A, det B, det(A*B), det(A^T)
-The reference in S4 is exact rational arithmetic (fractions.Fraction) on the double-valued input.
+  seq A k step_1 .. step_k   a call history on ONE object with initial entries A; steps:
+      queries  det | invertible | inverse | orthogonal | copydet | transdet | subdet i j
+      updates  add B (+=) | sub B (-=) | set i j v | swap i j | assignm B (=) | assign r c v | resize r c | delrow i | delcol j
+    output: per query `D x x'` / `F b b'` / `X M.. M..` = the object's answer and the answer of a new object built from the
+    object's current entries; `U` per update.  A call that terminates the process makes the whole case EXIT.
+The reference in S4 is exact rational arithmetic (fractions.Fraction) on the double-valued input, normalised by the power of two
+of its largest entry so that every clause is evaluated the same way at every scale (entries * 2^k, |k| <= 900).
 """
 import math, itertools, functools
 from fractions import Fraction
@@ -22,14 +28,19 @@ DET_SLACK = 64 * EPS
 # pivoting has forward error c(n)*growth*kappa*eps with growth ~ 1..n in practice): with kappa = ||M||_F ||M^-1||_F
 #   ||X - M^-1||_F <= C_INV*n*kappa*eps*||M^-1||_F,  ||X*M - 1||_F <= C_INV*n*kappa*eps,  ||M*X - 1||_F <= C_INV*n*kappa^2*eps.
 C_INV = 64.0
-RULE = ("one case = one call of Determinant / Invertible / Inverse (or a determinant law on two calls); non-trivial = the matrix has a zero or "
-        "tiny (< 1e-8*||M||^k for the k-th) leading principal minor, or a condition number above 1e4, or is non-square / exactly singular "
-        "(guard exercised); distinct by case text")
+RULE = ("one case = one call of Determinant / Invertible / Inverse (or a determinant law on two calls, or a call history of 3..12 calls on "
+        "one object); non-trivial = the matrix has a zero or tiny (< 1e-8*||M||^k for the k-th) leading principal minor, or a condition "
+        "number above 1e4, or is non-square / exactly singular (guard exercised), or its determinant leaves the normal double range, or "
+        "the case is a call history; distinct by case text")
 LEVEL_TEXT = ("Theorems (Coq/MathComp, every size, every field): the model's Laplace determinant is the determinant (\\det), hence multiplicative, "
               "transpose-invariant, sign-changing under a row swap and the product of the diagonal for triangular matrices; Invertible <-> det != 0; "
               "whenever Inverse returns X then X*M = 1 and M*X = 1; a singular or non-square matrix exits; see evidence.coverage.theorems. "
               "NOT a theorem: the floating-point accuracy clause (c*n*kappa*eps) - it is checked in S4 against the exact rational inverse and "
-              "determinant of the double-valued input. The Gallina model is extracted and run against libphysica on every run (bit-identical).")
+              "determinant of the double-valued input. Call histories on one object: for every arithmetic the model's answer depends on the current "
+              "entries only (theorems C05_seq_*); that the implementation has no other state is checked by correspondence and by the S4 clause "
+              "'history' (object's answer = answer of a new object with the same entries, bit for bit). Known findings K-C05-1/-2 (see "
+              "known_findings.d/C05.json) are properties of floating-point evaluation, outside the exact-arithmetic theorems. "
+              "The Gallina model is extracted and run against libphysica on every run (bit-identical).")
 LEVEL_NOTE = ("Coq 8.16.1 + MathComp 1.15, axiom-free; hand-written model (coq/C05_Model.v, uses coq/C04_Model.v) tied by differential correspondence; "
               "theorems are about exact field arithmetic (the exact values of the doubles); pivot choice (fabs, >) is left uninterpreted in the "
               "soundness theorem, so it holds for every pivoting rule")
@@ -128,10 +139,21 @@ class Ctx:
         s.near_singular = (not s.singular) and abs(s.ds) <= Fraction(4 * s.relb)     # not distinguishable from singular at working precision (scale-free)
         s.kappa = math.inf if s.singular else fsqrt(fro2(s.AF) * fro2(s.invs))
         s.det_subnormal = (not s.singular) and abs(s.d) < DBL_MIN_NORMAL
+        # the exact determinant lies below twice the underflow allowance of the Laplace sum: Determinant() may legitimately be 0
+        s.det_underflow = (not s.singular) and abs(s.d) < 2 * s.uf
 
     def fl(s, q):
         try: return float(q)
         except OverflowError: return math.inf if q > 0 else -math.inf
+
+    def sci(s, q):
+        """a Fraction of any magnitude as text (the exact determinant may lie outside the double range)"""
+        q = Fraction(q)
+        if q == 0: return "0"
+        e = q.numerator.bit_length() - q.denominator.bit_length()
+        if -1000 < e < 1000: return repr(float(q))
+        m = float(q / pow2(e))
+        return f"{m!r}*2^{e}"
 
 
 _ctx_cache = {}
@@ -155,7 +177,7 @@ def small_int_scaled(A):
     nz = [abs(x) for r in A for x in r if x != 0]
     if not nz: return True
     if not all(math.isfinite(x) for x in nz): return False
-    m = min(nz); u = 2.0 ** (math.frexp(m)[1] - 5)          # m >= 16*u, so every entry that is an integer multiple of u^... is tested below
+    m = min(nz)
     for cand in (math.ldexp(1.0, math.frexp(m)[1] - 1 - t) for t in range(4)):     # unit = 2^k with m/unit in {1..15}
         if all((x / cand) == int(x / cand) and abs(x / cand) <= 9 for x in nz): return True
     return False
@@ -180,10 +202,12 @@ def pow2_multiple(r1, r2):
 def structure_exact(A):
     """exactly singular matrices on which the elimination of Inverse() meets an exactly vanishing pivot whatever the entries are:
     a zero row or column stays zero, and of two rows that are equal up to a factor +-2^k one is cleared exactly (ratio +-2^k,
-    a - 1*a = 0) as soon as the other becomes the pivot row; likewise 2^k times a small-integer matrix (all operations exact)"""
+    a - 1*a = 0) as soon as the other becomes the pivot row; and 2^k times a small-integer matrix (its Laplace sum is exactly 0,
+    so that Invertible() already refuses it, as long as no product leaves the double range)"""
     n = len(A)
     if not all(math.isfinite(x) for r in A for x in r): return False
-    if small_int_scaled(A): return True
+    c = ctx_of(A)
+    if small_int_scaled(A) and not c.overflow_possible and not c.underflow_possible: return True     # Determinant() is exactly 0: the gate refuses
     if any(all(x == 0 for x in r) for r in A): return True
     if any(all(A[i][j] == 0 for i in range(n)) for j in range(n)): return True
     return any(pow2_multiple(A[i], A[j]) for i in range(n) for j in range(i + 1, n))
@@ -434,9 +458,13 @@ def gen_seq(rng, n, kind):
         if u == "set": return [("set", rng.randrange(m), rng.randrange(m), V())]
         if u == "swap": return [("swap", rng.randrange(m), rng.randrange(m))]
         if u == "assignm": return [("assignm", new_mat(rng.choice([m, m, max(1, m - 1), min(7, m + 1)])))]
-        if u == "assign": return [("assign", m, m, V())] + [("set", i, i, V()) for i in range(m)]
+        if u == "assign":
+            if rng.random() < 0.5: return [("assign", m, m, V())] + [("set", i, i, V()) for i in range(m)]
+            return [("assign", m, m, V()), ("add", new_mat(m))]
         if u == "resize":
-            if m < 6 and rng.random() < 0.6: return [("resize", m + 1, m + 1), ("set", m, m, V())]
+            if m < 6 and rng.random() < 0.6:
+                w = rng.randrange(3)      # the new row and column are zero: leave them, or fill through operator[] / through +=
+                return [("resize", m + 1, m + 1)] + ([("set", m, m, V())] if w == 0 else [("add", new_mat(m + 1))] if w == 1 else [])
             if m > 1: return [("resize", m - 1, m - 1)]
             return [("resize", m + 1, m + 1)]
         if u == "delrow+delcol":
@@ -493,7 +521,7 @@ def generate(rng, tier):
     # the same families at extreme scales: entries * 2^k, k aimed at the ends of the double range for the determinant
     for n in range(1, 8):
         ets = list(DET_EXPONENTS); rng.shuffle(ets)
-        per = (len(ets) if big else 7) if n >= 2 else 3
+        per = (len(ets) if big else 16) if n >= 2 else 4
         for t in range(per * (3 if big else 1)):
             kind = rng.choice(SCALED_KINDS)
             A0 = gen_matrix(rng, n, kind)
@@ -502,9 +530,14 @@ def generate(rng, tier):
             cs.append(inv_case(A, kind, tg))
             cs.append(Case(f"det {mtab(A)}", ("det", kind, f"n={n}") + tg, tol=det_tol(A)))
             cs.append(Case(f"invertible {mtab(A)}", ("invertible", kind) + tg, tol=det_tol(A)))
+    # exactly singular matrices with generic (non-dyadic) entries, every structure, sizes 2..7: the Laplace sum is a residue
+    for n in range(2, 8):
+        for _ in range(30 if big else 6):
+            A = gen_matrix(rng, n, "rank-deficient-real")
+            cs.append(inv_case(A, "rank-deficient-real")); cs.append(Case(f"invertible {mtab(A)}", ("invertible", "rank-deficient-real"), tol=det_tol(A)))
     # call histories on one object
     for n in range(1, 8):
-        for _ in range((40 if big else 8) * (2 if 3 <= n <= 5 else 1)):
+        for _ in range((120 if big else 24) * (2 if 3 <= n <= 5 else 1)):
             cs.append(gen_seq(rng, n, rng.choice(["dense", "dense-int", "dense-int", "symmetric", "upper", "signed-perm", "rank-deficient", "zero-minor", "graded"])))
     # the witnesses of the defects fixed earlier, and hand-picked pivoting situations
     for A in ([[0.0, 1.0], [1.0, 0.0]], [[1e-20, 1.0], [1.0, 1.0]], [[0.0, 0.0, 1.0], [0.0, 1.0, 0.0], [1.0, 0.0, 0.0]],
@@ -576,7 +609,7 @@ def nontrivial(c, io):
 
 
 # ---------------------------------------------------------------- S4: the clauses, on one (matrix, answer) pair
-def sfx(c): return ":det-below-normal-range" if c.det_subnormal else ""
+def sfx(c): return ":det-underflow" if c.det_underflow else ""
 
 
 def clause_det(A, g):
@@ -584,9 +617,9 @@ def clause_det(A, g):
     c = ctx_of(A); n = c.n; out = []
     if not c.finite or c.overflow_possible: return out        # a product of entries may exceed the double range: no rounding model
     if not math.isfinite(g):
-        out.append(("value", f"Determinant = {g!r}, exact {c.fl(c.d)!r}")); return out
+        out.append(("value", f"Determinant = {g!r}, exact {c.sci(c.d)}")); return out
     if not abs(Fraction(g) - c.d) <= c.bound:
-        out.append(("value", f"Determinant = {g!r}, exact {c.fl(c.d)!r} (allowed rounding {c.fl(c.bound):.3g})"))
+        out.append(("value", f"Determinant = {g!r}, exact {c.sci(c.d)} (allowed rounding {c.fl(c.bound):.3g})"))
     if all(A[i][j] == 0 for i in range(n) for j in range(i)) or all(A[i][j] == 0 for i in range(n) for j in range(i + 1, n)):
         pd = functools.reduce(lambda a, b: a * b, [Fraction(A[i][i]) for i in range(n)], Fraction(1))
         if not abs(Fraction(g) - pd) <= c.bound:
@@ -602,7 +635,7 @@ def clause_invertible(A, flag, g=None):
     if c.singular and small_int_scaled(A) and not c.overflow_possible and not c.underflow_possible and flag != 0:
         out.append(("singular", "exactly singular integer matrix reported invertible"))
     if (not c.singular) and (not c.near_singular) and flag != 1:
-        out.append(("regular" + sfx(c), f"matrix with determinant {c.fl(c.d)!r} (condition number {c.kappa:.3g}) reported not invertible"))
+        out.append(("regular" + sfx(c), f"matrix with determinant {c.sci(c.d)} (condition number {c.kappa:.3g}) reported not invertible"))
     return out
 
 
@@ -617,7 +650,7 @@ def clause_inverse(A, ex, X):
         return out
     if c.near_singular: return out      # not distinguishable from singular at working precision
     if ex:
-        out.append(("regular" + sfx(c), f"invertible matrix (det {c.fl(c.d)!r}, condition number {c.kappa:.3g}) : Inverse terminated the process")); return out
+        out.append(("regular" + sfx(c), f"invertible matrix (det {c.sci(c.d)}, condition number {c.kappa:.3g}) : Inverse terminated the process")); return out
     if X is None or len(X) != n or any(len(row) != n for row in X): out.append(("shape", "Inverse is not an n x n matrix")); return out
     if any(math.isnan(x) or math.isinf(x) for row in X for x in row): out.append(("finite", "Inverse contains inf/nan")); return out
     k = c.kappa; sc = pow2(c.e)
@@ -705,7 +738,6 @@ def predicates_seq(r, io):
             for cl, msg in clause_inverse(cur, False, X1): bad(cl, f"{where}: {msg}")
     if ex:
         # no call of the history was entitled to terminate
-        sub = any(is_square(S) and ctx_of(S).det_subnormal for S in [A])
         bad("regular", "the process terminated although every call of the history is defined (square, invertible where Inverse is asked)")
     return out
 
@@ -736,7 +768,7 @@ def predicates(c, io):
         for cl, msg in clause_det(A, g1): bad(cl, msg)
         B = [list(rw) for rw in A]; B[i], B[j] = B[j], B[i]
         if not cx.overflow_possible and cx.finite:
-            if not (math.isfinite(g2) and abs(Fraction(g2) + cx.d) <= cx.bound): bad("row-swap", f"after exchanging rows {i},{j} the determinant is {g2!r}, expected {cx.fl(-cx.d)!r}")
+            if not (math.isfinite(g2) and abs(Fraction(g2) + cx.d) <= cx.bound): bad("row-swap", f"after exchanging rows {i},{j} the determinant is {g2!r}, expected {cx.sci(-cx.d)}")
     elif op == "det_laws":
         B = r.table()
         if ex: bad("defined", "Determinant terminated the process"); return out
@@ -744,11 +776,11 @@ def predicates(c, io):
         cb = ctx_of(B); P = fprod(A, B); cp = ctx_of(P)
         if cx.overflow_possible or cb.overflow_possible or cp.overflow_possible or not (cx.finite and cb.finite and cp.finite): return out
         if not all(math.isfinite(x) for x in (dA, dB, dAB, dAt)): bad("value", "a determinant is not finite"); return out
-        if not abs(Fraction(dAt) - cx.d) <= cx.bound: bad("transpose", f"det(A^T) = {dAt!r}, exact det(A) = {cx.fl(cx.d)!r}")
-        if not abs(Fraction(dAB) - cp.d) <= cp.bound: bad("product-value", f"det(A*B) = {dAB!r}, exact determinant of the product formed = {cp.fl(cp.d)!r}")
+        if not abs(Fraction(dAt) - cx.d) <= cx.bound: bad("transpose", f"det(A^T) = {dAt!r}, exact det(A) = {cx.sci(cx.d)}")
+        if not abs(Fraction(dAB) - cp.d) <= cp.bound: bad("product-value", f"det(A*B) = {dAB!r}, exact determinant of the product formed = {cp.sci(cp.d)}")
         absP = [[sum(abs(A[i][k] * B[k][j]) for k in range(n)) for j in range(n)] for i in range(n)]
         mb = DET_SLACK * n * perm_abs(absP) + float(cp.uf)
-        if not abs(Fraction(dAB) - cx.d * cb.d) <= Fraction(mb): bad("multiplicative", f"det(A*B) = {dAB!r}, det(A)*det(B) = {cx.fl(cx.d * cb.d)!r} (allowed {mb:.3g})")
+        if not abs(Fraction(dAB) - cx.d * cb.d) <= Fraction(mb): bad("multiplicative", f"det(A*B) = {dAB!r}, det(A)*det(B) = {cx.sci(cx.d * cb.d)} (allowed {mb:.3g})")
     elif op == "inverse":
         X = None if ex else parse_mat(io)
         for cl, msg in clause_inverse(A, ex, X): bad(cl, msg)
